@@ -152,6 +152,26 @@ def run_views(prop: str, repo_root: str, overrides, tier: str):
                     x.detail = (x.detail + " [decided on the canonical view; the function as written was not recognised]").strip()
             merged.extend(gb)
             used_b += 1
+        elif not a_ok and gb and {x.key for x in ga} == {x.key for x in gb}:
+            # same obligations in both views: each is an independent necessary condition about one function, and the two views
+            # are the same program, so an obligation is discharged if either view discharges it
+            by_b = {}
+            for x in gb:
+                by_b.setdefault(x.key, []).append(x)
+            mixed, all_ok = [], True
+            for x in ga:
+                if x.status in (OK, INFO):
+                    mixed.append(x)
+                elif all(y.status in (OK, INFO) for y in by_b[x.key]):
+                    for y in by_b[x.key]:
+                        y.detail = (y.detail + " [discharged on the canonical view]").strip()
+                    mixed.extend(by_b[x.key])
+                else:
+                    mixed.append(x)
+                    all_ok = False
+            merged.extend(mixed)
+            if all_ok:
+                used_b += 1
         else:
             merged.extend(ga)
     # groups only the canonical view produced (the live view stopped before reaching them, e.g. a fold that left the fragment
